@@ -2,6 +2,7 @@ package props
 
 import (
 	"go/ast"
+	"go/token"
 	"go/types"
 	"sort"
 	"strings"
@@ -130,4 +131,288 @@ func extraC10Consumers(c *Ctx) {
 	c.Expect("C10-R9", "functions and goroutine bodies analysed", nU, 100)
 	c.Expect("C10-R9", "of them with sink uses of file-controlled values", nF, 1)
 	c.Expect("C10-R9", "sink uses of file-controlled values in consumers", nS, 2)
+}
+
+func init() {
+	prev := registry["C10"].Run
+	registry["C10"].Run = func(c *Ctx) { prev(c); extraC10Sniff(c) }
+}
+
+// extraC10Sniff is C10-R10: ggml.DetectContentType reads b[:4] without looking at len(b); that is
+// in bounds only while every caller hands it a slice whose capacity is at least 4.
+func extraC10Sniff(c *Ctx) {
+	rule := "C10-R10"
+	c.Rule(rule, "the magic-number sniff never slices past its argument: ggml.DetectContentType evaluates b[:4] unconditionally, so either it tests len(b) first or every call site passes a slice with capacity >= 4 by construction — make([]byte, n) with a constant n >= 4, or the Bytes() of a bytes.Buffer filled through Buffer.ReadFrom (io.CopyN, or io.Copy from a source whose type has no WriteTo), which grows the buffer by bytes.MinRead before the first read even for an empty source; a []byte parameter is followed to the call sites of its function (an uploaded file shorter than four bytes must get an error response, not a slice-bounds panic in the create goroutine)")
+	dct := c.P.LookupFunc(ggmlPkg, "DetectContentType")
+	if dct == nil {
+		c.Undecided(rule, "anchor:func:"+ggmlPkg+".DetectContentType", "-", "anchor lost")
+		return
+	}
+	// callee-side guard?
+	{
+		g := c.G(dct)
+		info := dct.Info()
+		p0 := paramAt(dct, 0)
+		guarded := true
+		nSl := 0
+		for _, h := range g.Find(func(n ast.Node) bool { _, ok := n.(*ast.SliceExpr); return ok }) {
+			sl := h.Node.(*ast.SliceExpr)
+			if !isIdentOf(info, sl.X, p0) {
+				continue
+			}
+			nSl++
+			ok := false
+			for _, a := range g.AtomsAt(h.Loc) {
+				if be, isB := ast.Unparen(a.Expr).(*ast.BinaryExpr); isB {
+					if call, isC := ast.Unparen(be.X).(*ast.CallExpr); isC && core.CalleeName(info, call) == "builtin.len" && isIdentOf(info, call.Args[0], p0) {
+						v, isV := core.ConstInt(info, be.Y)
+						if isV && ((be.Op == token.GEQ && a.Val && v >= 4) || (be.Op == token.LSS && !a.Val && v >= 4) || (be.Op == token.GTR && a.Val && v >= 3)) {
+							ok = true
+						}
+					}
+				}
+			}
+			if !ok {
+				guarded = false
+			}
+		}
+		if nSl > 0 && guarded {
+			c.OK(rule, dct.Key()+" tests the length itself", c.Pos(dct.Body), "")
+			return
+		}
+	}
+	type fnKey = string
+	byName := map[fnKey]*core.Func{}
+	var all []*core.Func
+	for _, pkg := range []string{"server", "llm", ggmlPkg} {
+		for _, f := range c.P.FuncsOf(pkg) {
+			if strings.HasSuffix(c.Pos(f.Body), "_test.go") {
+				continue
+			}
+			all = append(all, f)
+			if f.Obj != nil {
+				byName[f.Obj.FullName()] = f
+			}
+		}
+	}
+	callSites := func(target *core.Func) (out []struct {
+		f    *core.Func
+		call *ast.CallExpr
+	}) {
+		for _, f := range all {
+			for _, call := range core.Calls(f.Body, true) {
+				if fo, ok := core.Callee(f.Info(), call).(*types.Func); ok && target.Obj != nil && fo.FullName() == target.Obj.FullName() {
+					out = append(out, struct {
+						f    *core.Func
+						call *ast.CallExpr
+					}{f, call})
+				}
+			}
+		}
+		return
+	}
+	noWriteTo := func(t types.Type) bool {
+		if t == nil {
+			return false
+		}
+		if _, isIface := t.Underlying().(*types.Interface); isIface {
+			return false // dynamic type unknown
+		}
+		for _, tt := range []types.Type{t, types.NewPointer(t)} {
+			if types.NewMethodSet(tt).Lookup(nil, "WriteTo") != nil {
+				return false
+			}
+		}
+		return true
+	}
+	paramIndex := func(f *core.Func, o types.Object) int {
+		for i := 0; ; i++ {
+			p := paramAt(f, i)
+			if p == nil {
+				return -1
+			}
+			if p == o {
+				return i
+			}
+		}
+	}
+	var srcOK func(f *core.Func, e ast.Expr, depth int) (bool, string)
+	srcOK = func(f *core.Func, e ast.Expr, depth int) (bool, string) {
+		info := f.Info()
+		t := info.Types[e].Type
+		if noWriteTo(t) {
+			return true, ""
+		}
+		if id, ok := ast.Unparen(e).(*ast.Ident); ok && depth < 3 {
+			if pi := paramIndex(f, info.Uses[id]); pi >= 0 {
+				sites := callSites(f)
+				if len(sites) == 0 {
+					return false, "no call site of " + f.Name + " fixes the reader's type"
+				}
+				for _, s := range sites {
+					if pi >= len(s.call.Args) {
+						return false, "variadic call"
+					}
+					if ok, why := srcOK(s.f, s.call.Args[pi], depth+1); !ok {
+						return false, why
+					}
+				}
+				return true, ""
+			}
+		}
+		ts := "?"
+		if t != nil {
+			ts = t.String()
+		}
+		return false, "the source " + core.ExprString(e) + " (" + ts + ") may implement io.WriterTo: io.Copy then never calls Buffer.ReadFrom and an empty source leaves a buffer without capacity"
+	}
+	var capOK func(f *core.Func, at *ast.CallExpr, e ast.Expr, depth int) (bool, string)
+	capOK = func(f *core.Func, at *ast.CallExpr, e ast.Expr, depth int) (bool, string) {
+		info := f.Info()
+		g := c.G(f)
+		e = ast.Unparen(e)
+		switch x := e.(type) {
+		case *ast.Ident:
+			o := info.Uses[x]
+			if pi := paramIndex(f, o); pi >= 0 && depth < 3 {
+				sites := callSites(f)
+				if len(sites) == 0 {
+					return false, "parameter " + x.Name + " of " + f.Name + " has no call site to follow"
+				}
+				for _, s := range sites {
+					if ok, why := capOK(s.f, s.call, s.call.Args[pi], depth+1); !ok {
+						return false, why
+					}
+				}
+				return true, ""
+			}
+			if rhs, _, cnt := singleDef(info, f.Body, o); cnt == 1 && rhs != nil {
+				if mk, isC := ast.Unparen(rhs).(*ast.CallExpr); isC && core.CalleeName(info, mk) == "builtin.make" && len(mk.Args) >= 2 {
+					for _, a := range mk.Args[1:] {
+						if v, isV := core.ConstInt(info, a); isV && v >= 4 {
+							return true, ""
+						}
+					}
+					return false, "make with a length that is not a constant >= 4 (" + core.ExprString(mk.Args[1]) + ")"
+				}
+			}
+			return false, "cannot bound the capacity of " + x.Name
+		case *ast.CallExpr:
+			if core.CalleeName(info, x) == "bytes.Buffer.Bytes" {
+				buf := ast.Unparen(x.Fun).(*ast.SelectorExpr).X
+				bid, isId := ast.Unparen(buf).(*ast.Ident)
+				if !isId {
+					return false, "buffer is not a local variable"
+				}
+				bo := info.Uses[bid]
+				atLoc := g.Locate(at)
+				why := "no io.Copy/io.CopyN/ReadFrom into the buffer dominates the sniff"
+				for _, h := range g.FindCalls("io.Copy", "io.CopyN", "bytes.Buffer.ReadFrom") {
+					call := h.Node.(*ast.CallExpr)
+					nm := core.CalleeName(info, call)
+					var dst, src ast.Expr
+					if nm == "bytes.Buffer.ReadFrom" {
+						dst, src = ast.Unparen(call.Fun).(*ast.SelectorExpr).X, call.Args[0]
+					} else {
+						dst, src = call.Args[0], call.Args[1]
+					}
+					if !core.UsesObj(info, dst, bo) || !g.Dominates(h.Loc, atLoc) {
+						continue
+					}
+					if nm != "io.Copy" {
+						return true, "" // CopyN wraps the source in a LimitedReader; ReadFrom is direct
+					}
+					ok, w := srcOK(f, src, depth)
+					if ok {
+						return true, ""
+					}
+					why = w
+				}
+				return false, why
+			}
+		}
+		return false, "argument shape not recognised: " + core.ExprString(e)
+	}
+	n := 0
+	for _, s := range callSites(dct) {
+		n++
+		ok, why := capOK(s.f, s.call, s.call.Args[0], 0)
+		c.Check(rule, s.f.Key()+" sniff-argument#"+itoa(n), c.Pos(s.call), ok, "DetectContentType slices b[:4]: "+why)
+	}
+	c.Expect(rule, "call sites of ggml.DetectContentType", n, 2)
+}
+
+func init() {
+	p := registry["C10"]
+	p.Pkgs = append(p.Pkgs, "convert")
+	prev := p.Run
+	p.Run = func(c *Ctx) { prev(c); extraC10Safetensors(c) }
+}
+
+// extraC10Safetensors is C10-R11: the safetensors reader of package convert (create from uploaded
+// *.safetensors files runs it in the create goroutine) under the sink rules of R1.
+func extraC10Safetensors(c *Ctx) {
+	rule := "C10-R11"
+	c.Rule(rule, "the safetensors reader sizes nothing by an unchecked number from the file: in convert.parseSafetensors the header length read with binary.Read reaches make only between 0 and a bound that is not file-derived, and elements of the JSON-decoded header (data_offsets) are indexed only behind a length test; in safetensor.WriteTo the offset and size fields (filled from the header) reach allocation sizes only behind a non-negativity test and an upper bound against the file's size (sources: variables whose address is given to binary.Read / json Decode / json.Unmarshal, everything derived from them whatever its type, and the offset/size fields of convert.safetensor)")
+	fOff := c.P.LookupField("convert", "safetensor", "offset")
+	fSize := c.P.LookupField("convert", "safetensor", "size")
+	if fOff == nil || fSize == nil {
+		c.Undecided(rule, "anchor:convert.safetensor.offset/size", "-", "anchor lost")
+		return
+	}
+	extra := func(info *types.Info, e ast.Expr) (string, bool) {
+		if se, ok := ast.Unparen(e).(*ast.SelectorExpr); ok {
+			if fv := core.FieldVar(info, se); fv != nil && (fv == fOff || fv == fSize) {
+				return "safetensors header (" + fv.Name() + ")", true
+			}
+		}
+		return "", false
+	}
+	nS, nSeeds := 0, 0
+	for _, name := range []string{"parseSafetensors", "safetensor.WriteTo"} {
+		f := c.Fn(rule, "convert", name)
+		if f == nil {
+			continue
+		}
+		info := f.Info()
+		seeds := map[types.Object]string{}
+		for _, call := range core.Calls(f.Body, true) {
+			nm := core.CalleeName(info, call)
+			var target ast.Expr
+			switch nm {
+			case "encoding/binary.Read":
+				if len(call.Args) == 3 {
+					target = call.Args[2]
+				}
+			case "encoding/json.Decoder.Decode":
+				target = call.Args[0]
+			case "encoding/json.Unmarshal":
+				target = call.Args[1]
+			}
+			if u, ok := ast.Unparen(target).(*ast.UnaryExpr); ok && u.Op == token.AND {
+				if id, isId := ast.Unparen(u.X).(*ast.Ident); isId {
+					if o := info.Uses[id]; o != nil {
+						seeds[o] = "read from the file by " + nm
+						nSeeds++
+					}
+				}
+			}
+		}
+		tc := newTaintCtxOpts(c, f, seeds, true, extra)
+		reports := tc.sinks()
+		sort.Slice(reports, func(a, b int) bool { return reports[a].node.Pos() < reports[b].node.Pos() })
+		seq := map[string]int{}
+		for _, r := range reports {
+			nS++
+			k := r.kind + ":" + tc.stableExpr(r.what, r.node)
+			seq[k]++
+			key := f.Key() + " " + k
+			if seq[k] > 1 {
+				key += "#" + itoa(seq[k])
+			}
+			c.Check(rule, key, c.Pos(r.node), r.ok, "file-controlled value ("+r.why+") reaches "+r.kind+" `"+r.what+"` without "+r.need)
+		}
+	}
+	c.Expect(rule, "variables filled from the file in parseSafetensors", nSeeds, 2)
+	c.Expect(rule, "sink uses of file-controlled values in the safetensors reader", nS, 6)
 }
